@@ -1,4 +1,5 @@
 import SafeNet.Proofs.Register
+import SafeNet.Proofs.MerkleReg
 /-!
 # C06 — register replicas converge and accept only authorised writes
 
@@ -341,3 +342,132 @@ end SafeNet.Props.C06
 #print axioms SafeNet.Props.C06.reachable_verifies_partial
 #print axioms SafeNet.Props.C06.addOp_keeps_limit
 #print axioms SafeNet.Props.C06.merge_exceeds_limit_witness
+
+/-!
+# C06, CRDT part — `MerkleReg` replicas that received the same set of nodes are identical observably
+
+Model: `SafeNet.Model.MerkleReg` (`crdts-7.3.2` `MerkleReg::{apply, merge, read}`; tied to the real crate by
+the correspondence run on `read()`/`size()`). A node is identified with its hash: the only hypothesis is
+hash consistency of the delivered nodes (two delivered nodes with the same hash are the same node — SHA3
+collision-freedom). `StateEquiv s t`: same dag members, same orphan members, same root hashes, same
+`dag.len() + orphans.len()` (what `size()` reports).
+-/
+namespace SafeNet.Props.C06
+open SafeNet.MerkleReg
+
+/-- **Order- and duplication-independence of `apply`.** Two replicas that applied node lists with the same
+members (any order, any repetition) hold the same dag, the same orphans, the same roots and the same size. -/
+theorem crdt_apply_order_independent (l₁ l₂ : List Node)
+    (hsame : ∀ n, n ∈ l₁ ↔ n ∈ l₂)
+    (hcons : ∀ n ∈ l₁, ∀ m ∈ l₁, n.hash = m.hash → n = m) :
+    StateEquiv (l₁.foldl MerkleReg.apply {}) (l₂.foldl MerkleReg.apply {}) := by
+  exact equiv_of_inv (inv_of_list l₁ hcons) (inv_of_list l₂ (HC.congr hsame hcons)) hsame
+
+/-- The part of `crdt_apply_order_independent` about the operation sets and `size()` only. -/
+theorem crdt_apply_order_independent_dag (l₁ l₂ : List Node)
+    (hsame : ∀ n, n ∈ l₁ ↔ n ∈ l₂)
+    (hcons : ∀ n ∈ l₁, ∀ m ∈ l₁, n.hash = m.hash → n = m) :
+    let s₁ := l₁.foldl MerkleReg.apply {}
+    let s₂ := l₂.foldl MerkleReg.apply {}
+    (∀ n, n ∈ s₁.dag ↔ n ∈ s₂.dag) ∧ (∀ n, n ∈ s₁.orphans ↔ n ∈ s₂.orphans) ∧
+      s₁.dag.length + s₁.orphans.length = s₂.dag.length + s₂.orphans.length :=
+  have e := crdt_apply_order_independent l₁ l₂ hsame hcons
+  ⟨e.dag, e.orphans, e.size⟩
+
+/-- **Identical current values**: `read()` returns the same set of hashes on both replicas. -/
+theorem crdt_read_order_independent (l₁ l₂ : List Node)
+    (hsame : ∀ n, n ∈ l₁ ↔ n ∈ l₂)
+    (hcons : ∀ n ∈ l₁, ∀ m ∈ l₁, n.hash = m.hash → n = m) :
+    ∀ h, h ∈ read (l₁.foldl MerkleReg.apply {}) ↔ h ∈ read (l₂.foldl MerkleReg.apply {}) :=
+  (crdt_apply_order_independent l₁ l₂ hsame hcons).read
+
+/-- **What the state is**, as a function of the set of delivered nodes only: the dag holds the delivered
+nodes whose whole ancestry was delivered (`InDag`, a least fixpoint: `inDag_unfold`), the orphans are the
+other delivered nodes, and `read()` returns the hashes of dag nodes that no dag node names as a child. -/
+theorem crdt_state_characterisation (l : List Node)
+    (hcons : ∀ n ∈ l, ∀ m ∈ l, n.hash = m.hash → n = m) :
+    let s := l.foldl MerkleReg.apply {}
+    (∀ n, n ∈ s.dag ↔ InDag l n) ∧ (∀ n, n ∈ s.orphans ↔ n ∈ l ∧ ¬ InDag l n) ∧
+    (∀ h, h ∈ read s ↔ (∃ x, InDag l x ∧ x.hash = h) ∧ ¬ ∃ p, InDag l p ∧ h ∈ p.children) ∧
+    (s.dag ++ s.orphans).Nodup := by
+  have i : Inv l (l.foldl MerkleReg.apply {}) := inv_of_list l hcons
+  exact ⟨i.mem_dag, i.mem_orphans, i.mem_read, i.nodup.nodup⟩
+
+/-- **Merge converges**: merging two replicas in either direction gives equivalent states, and both equal
+(observably) the state of a replica that applied every node itself. -/
+theorem crdt_merge_converges (l₁ l₂ : List Node)
+    (hcons : ∀ n ∈ l₁ ++ l₂, ∀ m ∈ l₁ ++ l₂, n.hash = m.hash → n = m) :
+    let a := l₁.foldl MerkleReg.apply {}
+    let b := l₂.foldl MerkleReg.apply {}
+    StateEquiv (MerkleReg.merge a b) (MerkleReg.merge b a) ∧
+      StateEquiv (MerkleReg.merge a b) ((l₁ ++ l₂).foldl MerkleReg.apply {}) := by
+  intro a b
+  have hc : HC (l₁ ++ l₂) := hcons
+  have hc' : HC (l₂ ++ l₁) := hc.congr (fun x => by simp [or_comm])
+  have ia : Inv l₁ a := inv_of_list l₁ (hc.sub (fun x hx => List.mem_append_left _ hx))
+  have ib : Inv l₂ b := inv_of_list l₂ (hc.sub (fun x hx => List.mem_append_right _ hx))
+  have iall : Inv (l₁ ++ l₂) ((l₁ ++ l₂).foldl MerkleReg.apply {}) := inv_of_list _ hc
+  exact ⟨equiv_of_inv (inv_merge ia ib hc') (inv_merge ib ia hc) (fun x => by simp [or_comm]),
+    equiv_of_inv (inv_merge ia ib hc') iall (fun x => by simp [or_comm])⟩
+
+theorem crdt_merge_read_converges (l₁ l₂ : List Node)
+    (hcons : ∀ n ∈ l₁ ++ l₂, ∀ m ∈ l₁ ++ l₂, n.hash = m.hash → n = m) :
+    let a := l₁.foldl MerkleReg.apply {}
+    let b := l₂.foldl MerkleReg.apply {}
+    ∀ h, h ∈ read (MerkleReg.merge a b) ↔ h ∈ read (MerkleReg.merge b a) :=
+  (crdt_merge_converges l₁ l₂ hcons).1.read
+
+/-- **General form**: any two replicas reached from the empty register through any interleaving of `apply`s
+and `merge`s with other reachable replicas (`MerkleReg.Reach R s`, `R` the nodes received, with repetitions), having
+received the same set of hash-consistent nodes, are equivalent and `read` the same values. -/
+theorem crdt_reachable_converge {R₁ R₂ : List Node} {s₁ s₂ : MReg}
+    (r₁ : MerkleReg.Reach R₁ s₁) (r₂ : MerkleReg.Reach R₂ s₂) (hsame : ∀ n, n ∈ R₁ ↔ n ∈ R₂)
+    (hcons : ∀ n ∈ R₁, ∀ m ∈ R₁, n.hash = m.hash → n = m) :
+    StateEquiv s₁ s₂ ∧ ∀ h, h ∈ read s₁ ↔ h ∈ read s₂ :=
+  have e := equiv_of_inv (reach_inv r₁ hcons) (reach_inv r₂ (HC.congr hsame hcons)) hsame
+  ⟨e, e.read⟩
+
+/-- Merging a replica into itself (or re-merging what was merged) changes nothing observable. -/
+theorem crdt_merge_idem {R : List Node} {s : MReg} (r : MerkleReg.Reach R s)
+    (hcons : ∀ n ∈ R, ∀ m ∈ R, n.hash = m.hash → n = m) : StateEquiv (MerkleReg.merge s s) s :=
+  (crdt_reachable_converge (MerkleReg.Reach.merge r r) r (fun n => by simp) (HC.congr (fun n => by simp) hcons)).1
+
+/-! ## Non-vacuity (CRDT part) -/
+
+def n1 : Node := { hash := 1, children := [] }
+def n2 : Node := { hash := 2, children := [1] }
+def n3 : Node := { hash := 3, children := [2] }
+def n4 : Node := { hash := 4, children := [1] }
+
+/-- A 3-node chain delivered child-last (two orphans drained by the last delivery) vs child-first. -/
+example : read ([n3, n2, n1].foldl MerkleReg.apply {}) = [3] ∧
+    read ([n1, n2, n3].foldl MerkleReg.apply {}) = [3] := by decide
+example : ([n3, n2].foldl MerkleReg.apply {}).orphans = [n3, n2] ∧
+    ([n3, n2, n1].foldl MerkleReg.apply {}).dag = [n1, n2, n3] := by decide
+/-- Two concurrent branches, with duplication and different orders: same two current values. -/
+example : read ([n4, n3, n3, n2, n1, n4].foldl MerkleReg.apply {}) = [4, 3] ∧
+    read ([n1, n4, n2, n1, n3].foldl MerkleReg.apply {}) = [4, 3] := by decide
+example : read (MerkleReg.merge ([n3, n2].foldl MerkleReg.apply {}) ([n1, n4].foldl MerkleReg.apply {}))
+    = [3, 4] := by decide
+example : InDag [n3, n2, n1] n3 :=
+  ⟨by simp, fun c hc => by
+    have : c = 2 := by simpa [n3] using hc
+    subst this
+    exact Grounded.mk n2 (by simp) (fun c hc => by
+      have : c = 1 := by simpa [n2] using hc
+      subst this
+      exact Grounded.mk n1 (by simp) (fun c hc => by simp [n1] at hc))⟩
+/-- The hash-consistency hypothesis is needed: with two different nodes under one hash the first one wins. -/
+example : read ([n2, ⟨2, []⟩].foldl MerkleReg.apply {}) ≠ read ([⟨2, []⟩, n2].foldl MerkleReg.apply {}) := by
+  decide
+
+end SafeNet.Props.C06
+
+#print axioms SafeNet.Props.C06.crdt_apply_order_independent
+#print axioms SafeNet.Props.C06.crdt_apply_order_independent_dag
+#print axioms SafeNet.Props.C06.crdt_read_order_independent
+#print axioms SafeNet.Props.C06.crdt_state_characterisation
+#print axioms SafeNet.Props.C06.crdt_merge_converges
+#print axioms SafeNet.Props.C06.crdt_merge_read_converges
+#print axioms SafeNet.Props.C06.crdt_reachable_converge
+#print axioms SafeNet.Props.C06.crdt_merge_idem
